@@ -46,8 +46,9 @@ Proof. exact helper_under_other_type_leaks. Qed.
 
 (* ---- which places the dependent steps are run for (executor.FindInsertionPoints / FindSelection) ---- *)
 (* whenever the result conforms to the selection along the path (no null on the way, lists of objects, an id on the
-   objects at its end), every place is found: the places below a list are, in order, the places below each of its
-   entries — none skipped, none twice, no error *)
+   objects at its end — or, in a list, nothing but __typename: a member type nothing is selected for), every place is
+   found: the places below a list are, in order, the places below each of its entries that carries an id — none
+   skipped, none twice, no error *)
 Theorem every_place_of_a_conforming_result_is_found : forall rest ss chunk branch,
   Conf rest ss chunk -> points_go rest ss chunk branch = POk (paths rest ss chunk branch).
 Proof. exact every_place_is_found. Qed.
@@ -66,11 +67,13 @@ Proof. exact found_places_are_where_results_go. Qed.
 Theorem the_selection_of_this_level_wins : forall p ss c,
   find (fun c => fkey c =? p) ss = Some c -> find_selection p ss = Some c.
 Proof. exact level_first. Qed.
-(* listed finding C01-union-member-without-fields at this layer *)
-Theorem one_entry_without_id_hides_the_other_places :
-  find_points ["beings"] beings_sel beings_result [] = POk [] /\
-  paths ["beings"] beings_sel beings_result [] = [["beings:0#"]; ["beings:1#p1"]].
-Proof. exact one_entry_without_id_hides_the_others. Qed.
+(* what was the listed finding C01-union-member-without-fields, at this layer: a list entry that carries nothing but
+   __typename is passed over, the others are found (since fix ba7bf6b; before it the whole list came back empty) *)
+Theorem an_entry_with_nothing_but_typename_is_passed_over :
+  Conf ["beings"] beings_sel beings_result /\
+  find_points ["beings"] beings_sel beings_result [] = POk [["beings:1#p1"]] /\
+  paths ["beings"] beings_sel beings_result [] = [["beings:1#p1"]].
+Proof. exact an_entry_without_id_is_passed_over. Qed.
 
 Print Assumptions insertion_point_round_trip_list.
 Print Assumptions insertion_point_round_trip_object.
@@ -82,5 +85,5 @@ Print Assumptions registered_helper_can_leak.
 Print Assumptions every_place_of_a_conforming_result_is_found.
 Print Assumptions places_extend_the_starting_point.
 Print Assumptions the_selection_of_this_level_wins.
-Print Assumptions one_entry_without_id_hides_the_other_places.
+Print Assumptions an_entry_with_nothing_but_typename_is_passed_over.
 Print Assumptions found_places_lead_to_the_objects_they_name.
